@@ -289,6 +289,14 @@ package function
 // rule - and a value is stamped with the step time and carries the labels it was given. This also
 // discharges, entry by entry, what matrixSelector.Next assumes of its function field. Closures of the
 // package initialiser are numbered in source order (bin/gocv funcs -func 'function.init$').
+// time() is the step time in seconds - with its sub-second part - and pi() is the constant; both stamped with the step (C06).
+//@ func init$14
+//@   assigns nothing
+//@   ensures[C01,C06] time-is-the-step-time-in-seconds: result.Point.V == float64(f.StepTime) / 1000.0
+//@   ensures[C06,C18] time-stamped-with-the-step-time: result.Point.T == f.StepTime
+//@ func init$4
+//@   assigns nothing
+//@   ensures[C06,C18] pi-stamped-with-the-step-time: result.Point.T == f.StepTime
 //@ func init$5
 //@   ensures[C03] sum_over_time-absent-below-1-samples: len(f.Points) < 1 ==> !validSample(result)
 //@   ensures[C03,C18] sum_over_time-stamped-with-the-step-time: validSample(result) ==> result.Point.T == f.StepTime
